@@ -106,6 +106,14 @@ CheckRequests(e) ==
   /\ Judge("C01", "ExactlyOneRequest", e.nreq = 1, <<e.what, e.nreq>>, 1)
   /\ Judge("C03", "NoReplyNoResult", e.failed, e.what, "the call fails")
 
+\* C03 "any other datagram on the directed path, or a malformed one, makes the call fail": the farm answers the FIRST request
+\* with a fatal datagram (Transport!Verdict = "fail" on that path) and any further request with a well-formed reply - the call
+\* fails, and it has not asked a second time (Transport!ExactlyOneSend: a call is one Send, whatever Recv makes of the answer)
+CheckFatalFirst(e) ==
+  /\ Judge("C04", "NoPanic", ~e.panicked, e.what, "no panic")
+  /\ Judge("C03", "FatalDatagramFailsTheCall", e.failed, <<e.what, e.nreq>>, "the call fails")
+  /\ Judge("C03", "NoSecondRequest", e.nreq = 1, <<e.what, e.nreq>>, 1)
+
 \* C08 at the schedule "A's transport has returned, B runs to completion, only then does A look at its bytes"
 \* (Transport!Finish(a) ... Return(a)): each call's result is the interpretation of the reply to its OWN request
 CheckGate(e) ==
@@ -140,6 +148,7 @@ Check(e) == IF e.op = "W26Intervals" THEN CheckW26(e)
             ELSE IF e.op = "Window" THEN CheckWindow(e)
             ELSE IF e.op = "Source" THEN CheckSource(e)
             ELSE IF e.op = "Requests" THEN CheckRequests(e)
+            ELSE IF e.op = "FatalFirst" THEN CheckFatalFirst(e)
             ELSE IF Has(e, "gate") THEN CheckGate(e)
             ELSE IF Has(e, "kept") THEN CheckKept(e)
             ELSE IF Has(e.a, "extreme")
